@@ -922,6 +922,79 @@ def segctor_exec(run, fx):
     run.held('GROWTH', inst, fn.where(), '%d abstract executions' % cases)
 
 
+def kerninit_exec(run, fx):
+    """GROWTH / "no undefined behaviour or crash for any slot attributes": KernCollider::initSlot cuts the height of the glyph into
+    horizontal slices whose width it derives from the collision margin -- a slot attribute any rule can set, zero and negative values
+    included.  The function is interpreted (rules/ordint.py, floats as exact constants) on a fresh collider for margins of -50, 0, 1,
+    10 and 100 units and glyph heights of 0, 100 and 2000 units: no float is divided by zero, no quotient outside the int range is
+    converted, and the number of slices asked of the edge vector stays proportionate (at most (height + 2*max(margin,10) + 2) / 4 + 2:
+    a slice is never thinner than 10/1.5/1.5 units)."""
+    from . import ordint as O
+    fn = fx.one('graphite2::KernCollider::initSlot')
+    PK, PP = 'graphite2::KernCollider::', 'graphite2::Position::'
+    rec = fx.record('graphite2::KernCollider')
+    inst = 'KernCollider::initSlot slices the glyph with a positive slice width whatever the margin (interpreted)'
+    P = O.Poly.of
+    cases = 0
+    try:
+        for margin in (-50, 0, 1, 10, 100):
+            for height in (0, 100, 2000):
+                kc = O.Rec()
+                for f in rec['fields']:
+                    kc[PK + f['n']] = O.Ptr(None) if f.get('ptr') else 0
+                kc[PK + '_miny'], kc[PK + '_maxy'] = P(-10 ** 38), P(10 ** 38)
+                kc[PK + '_sliceWidth'] = P(0)
+                kc[PK + '_xbound'] = P(0)
+                kc[PK + '_mingap'] = P(0)
+                kc[PK + '_margin'] = P(0)
+                for nm in ('_limit',):
+                    kc[PK + nm] = O.Rec({'graphite2::Rect::bl': O.Rec({PP + 'x': P(0), PP + 'y': P(0)}), 'graphite2::Rect::tr': O.Rec({PP + 'x': P(0), PP + 'y': P(0)})})
+                for nm in ('_offsetPrev', '_currShift'):
+                    kc[PK + nm] = O.Rec({PP + 'x': P(0), PP + 'y': P(0)})
+                edges = O.Vec([])
+                kc[PK + '_edges'] = edges
+                for nm in ('_slotNear', '_nearEdges'):
+                    if PK + nm in kc:
+                        kc[PK + nm] = O.Vec([])
+                slot = O.Rec({'#slot': 1})
+                zero = lambda: O.Rec({PP + 'x': P(0), PP + 'y': P(0)})
+                nat = {'graphite2::Segment::getFace': lambda I, f, e, obj, a: O.Ptr(O.Rec({'#face': 1})),
+                       'graphite2::Face::glyphs': lambda I, f, e, obj, a: O.Rec({'#gc': 1}),
+                       'graphite2::GlyphCache::check': lambda I, f, e, obj, a: True,
+                       'graphite2::GlyphCache::getBoundingBBox': lambda I, f, e, obj, a, h=height: O.Rec({'graphite2::BBox::xi': P(0), 'graphite2::BBox::xa': P(500), 'graphite2::BBox::yi': P(0), 'graphite2::BBox::ya': P(h)}),
+                       'graphite2::Slot::attachedTo': lambda I, f, e, obj, a: O.Ptr(None),
+                       'graphite2::Slot::nextInCluster': lambda I, f, e, obj, a: O.Ptr(None),
+                       'graphite2::Slot::gid': lambda I, f, e, obj, a: 5,
+                       'graphite2::Slot::origin': lambda I, f, e, obj, a: zero(),
+                       'graphite2::Segment::collisionInfo': lambda I, f, e, obj, a: O.Ptr(O.Rec({'#coll': 1})),
+                       'graphite2::SlotCollision::shift': lambda I, f, e, obj, a: zero(),
+                       'get_edge': lambda I, f, e, obj, a: P(0), 'graphite2::get_edge': lambda I, f, e, obj, a: P(0), '(anonymous namespace)::get_edge': lambda I, f, e, obj, a: P(0)}
+                it = O.Interp(fx, natives=nat)
+                it.MAX_STEPS = 400000
+                it.max_fill = 4000
+                it.exact_floats = True
+                it.poly_sign = {}
+                cases += 1
+                desc = 'collision margin %d, glyph height %d' % (margin, height)
+                it.call(fn, kc, [O.Ptr(O.Rec({'#seg': 1})), O.Ptr(slot), O.LV([kc[PK + '_limit']], 0), P(margin), O.LV([zero()], 0), O.LV([zero()], 0), 0, P(0), P(height), O.Ptr(None)])
+                bound = (height + 2 * max(margin, 10) + 2) // 4 + 2
+                if len(edges.items) > bound:
+                    run.violated('GROWTH', inst, fn.where(), '%s: %d slices are allocated, more than %d (a slice %s units high)' % (desc, len(edges.items), bound, kc[PK + '_sliceWidth']))
+                    return
+                sw = O.Poly.of(kc[PK + '_sliceWidth']).const()
+                if sw is None or sw <= 0:
+                    run.violated('GROWTH', inst, fn.where(), '%s: the slice width is %s afterwards: KernCollider::mergeSlot divides by it' % (desc, kc[PK + '_sliceWidth']))
+                    return
+    except O.Violation as v:
+        run.violated('GROWTH', inst, fn.where(), 'collision margin %d, glyph height %d: %s (%s) -- a rule sets the margin attribute to any value; the int conversion of an infinite quotient is undefined and the '
+                     'edge vector is asked for an absurd size' % (margin, height, v.what, v.loc))
+        return
+    except AnalysisBroken as ex:
+        run.broken('GROWTH', inst, str(ex), fn.where())
+        return
+    run.held('GROWTH', inst, fn.where(), '%d margin / height combinations' % cases)
+
+
 def localarrays(run, fx, rule='CONST'):
     """no fixed-size LOCAL array is indexed by a value the font controls: every subscript of a local `T a[N]` with a non-constant index
     is dominated by a comparison of that index with a constant <= N (expected number of such subscripts on the pinned tree: none -- the
@@ -1006,6 +1079,7 @@ def run(run):
             run._sharing = False
     recursion(run, fx)
     looplimit(run, fx)
+    kerninit_exec(run, fx)
     from . import ordint as O_
     try:
         cases, bad = adjustexec(run, fx)
